@@ -855,6 +855,7 @@ impl TransactionBuilder {
             ));
         }
 
+        self.check_collateral_return_value_size(&collateral_return)?;
         let min_ada = min_ada_for_output(&collateral_return, &self.config.utxo_cost())?;
         if min_ada > collateral_return.amount.coin {
             return Err(JsError::from_str(&format!(
@@ -867,6 +868,21 @@ impl TransactionBuilder {
 
         self.set_collateral_return(collateral_return);
         self.total_collateral = Some(total_col.coin);
+        Ok(())
+    }
+
+    /// the ledger applies the maximum value size to the collateral return like to any other output
+    fn check_collateral_return_value_size(
+        &self,
+        collateral_return: &TransactionOutput,
+    ) -> Result<(), JsError> {
+        let value_size = collateral_return.amount.to_bytes().len();
+        if value_size > self.config.max_value_size as usize {
+            return Err(JsError::from_str(&format!(
+                "Maximum value size of {} exceeded by the collateral return. Found: {}",
+                self.config.max_value_size, value_size
+            )));
+        }
         Ok(())
     }
 
@@ -910,6 +926,7 @@ impl TransactionBuilder {
         }
         if col_return.multiasset.is_some() || col_return.coin > BigNum::zero() {
             let return_output = TransactionOutput::new(return_address, &col_return);
+            self.check_collateral_return_value_size(&return_output)?;
             let min_ada = min_ada_for_output(&return_output, &self.config.utxo_cost())?;
             if min_ada > col_return.coin {
                 return Err(JsError::from_str(&format!(
